@@ -381,7 +381,14 @@ def do_write(w, cfg, seed, op, cursor, arr=None):
         return w.rf_write(arr, g[0])
     if op[0] == "wn":
         return w.rf_write(arr)
-    return w.rf_write_blocks(arr, np.array(g, dtype=np.uint64), np.array(b, dtype=np.uint64))
+    ga, ba = np.array(g, dtype=np.uint64), np.array(b, dtype=np.uint64)
+    if (len(g) + int(g[0])) % 2 == 0:
+        # every other call hands over strided (non C-contiguous) uint64 index arrays, e.g. edges[::2]
+        tg = np.zeros(2 * len(g), dtype=np.uint64)
+        tb = np.full(2 * len(b), 2**40, dtype=np.uint64)
+        tg[::2], tb[::2] = ga, ba
+        ga, ba = tg[::2], tb[::2]
+    return w.rf_write_blocks(arr, ga, ba)
 
 
 # ---------------------------------------------------------------- reading back
